@@ -160,3 +160,126 @@ def slice_prog_budget(ctx):
                 'programs re-run at budgets {1, 2, K-1, K, K+1, K+2, default} where K = ops needed + 1; '
                 'non-trivial = runs that end in the ops-limit error', nontriv, _eval_dist(io))
     return r
+
+
+# ------------------------------------------------------------------ property-specific evaluation slices
+import gens2, histgen
+
+
+def _eval_slice(name, cases, rule, nontriv_pred=None):
+    lines = [c[0] for c in cases]
+    descr = [c[1] for c in cases]
+    io, mo, d, dt = corr.compare(lines)
+    pred = nontriv_pred or (lambda a: a.startswith('ok') or a.startswith('err'))
+    nontriv = [i for i, a in enumerate(io) if pred(a)]
+    return _finish(name, lines, descr, io, mo, d, dt, rule, nontriv, _eval_dist(io))
+
+
+def slice_ops(ctx):
+    """G-ops: container operation sequences (C14, C03)"""
+    cases = gens2.ops_cases(ctx['seed'], 60000 if big(ctx) else 3000, 3 if big(ctx) else 2, big_every=40)
+    return _eval_slice('ops', cases, 'list/dict operation sequences: exhaustive to depth 2 (quick) / 3 (thorough) over 10 ops x start '
+                       'lengths {0,2}, random sequences to length 25, start lengths incl. 9998..10001; non-trivial = evaluated (distinct)')
+
+
+def slice_num(ctx):
+    cases = gens2.num_cases(ctx['seed'], 300000 if big(ctx) else 20000)
+    return _eval_slice('num', cases, 'numeric expression trees over literals of 1..40 digits (forced ties at the 28th digit), host ints / '
+                       'bools / Decimals with exponents to +-999990, every operator, compound assignment and numeric builtin')
+
+
+def slice_probe(ctx):
+    cases = gens2.probe_cases(ctx['seed'], 200000 if big(ctx) else 15000)
+    return _eval_slice('probe', cases, 'expression shapes with a host probe at every leaf (and/or/if-else, operators, call arguments, list / '
+                       'dict / slice parts, index-assignment parts) under random truthy / falsy / raising probe tables; compared: '
+                       'ordered probe log, value, error class', lambda a: 'log (p' in a)
+
+
+def slice_scope(ctx):
+    cases = gens2.scope_cases(ctx['seed'], 100000 if big(ctx) else 8000)
+    return _eval_slice('scope', cases, 'one name bound at builtin / host / top-level / parameter level, lambda bodies that read, assign, '
+                       'compound-assign or raise, called via apply / map / sorted / reduce / try_apply / recursion')
+
+
+def slice_alias(ctx):
+    cases = gens2.alias_cases(ctx['seed'], 100000 if big(ctx) else 8000)
+    return _eval_slice('alias', cases, 'all assignment forms from host objects with internal sharing, then mutations through either side; '
+                       'values compared with aliasing structure')
+
+
+def slice_builtin_args(ctx):
+    names = list(sqimpl.load().functions.FUNCTIONS.keys())
+    cases = gens2.builtin_cases(ctx['seed'], names, 60000 if big(ctx) else 4000)
+    return _eval_slice('builtin_args', cases, 'every entry of FUNCTIONS x argument shapes (0 args, every single shape, 8x8 pairs exhaustive; '
+                       'random 2..4-tuples; callbacks); result and the arguments afterwards compared (aliasing-aware)')
+
+
+def slice_rand(ctx):
+    cases = gens2.rand_cases(ctx['seed'], 40000 if big(ctx) else 4000)
+    return _eval_slice('rand', cases, 'rand() / rand(a,b) / rand(list) / shuffle(list) with the deterministic stand-in for `random` on both sides')
+
+
+def slice_regex(ctx):
+    cases = gens2.regex_cases(ctx['seed'], 30000 if big(ctx) else 3000)
+    return _eval_slice('regex', cases, 'the three regex builtins x argument / flag shapes; the engine\'s answers are fed to the model')
+
+
+# ------------------------------------------------------------------ sessions
+def _session_cmp(lines, io, mo):
+    """call-by-call comparison; a model answer `U …` ends the comparable prefix of that session"""
+    diffs = []
+    for i, (a, b) in enumerate(zip(io, mo)):
+        if b.startswith('U ') or a.startswith('X ') or a.startswith('HARNESS'):
+            continue
+        for x, y in zip(a.split(' || '), b.split(' || ')):
+            if y.startswith('U ') or ' U ' in y or x.startswith('X '):
+                break
+            if x != y:
+                diffs.append(i)
+                break
+    return diffs
+
+
+def _sessions(ctx, tag, n, caches):
+    seed = ctx['seed']
+    texts = histgen.pool(seed)
+    variants = [v for t in texts for v in (t, t.rstrip(), t.rstrip() + ' ', t.rstrip() + '\n')]
+    corr.pool()
+    table = histgen.fresh_table(variants + histgen.NAMESRC)
+    lines, descr = [], []
+    for i in range(n):
+        rng = random.Random(f'{seed}/{tag}/{i}')
+        l, c = histgen.history(rng, texts, rng.choice(caches))
+        lines.append(histgen.with_table(l, c, table))
+        descr.append(l[:80] + ' ' + ' ; '.join(str(x[:3]) for x in c)[:600])
+    return lines, descr
+
+
+def slice_session(ctx):
+    """G-hist without cache (C11)"""
+    lines, descr = _sessions(ctx, 'hist', 20000 if big(ctx) else 1500, ['none'])
+    io, mo, _, dt = corr.compare(lines)
+    d = _session_cmp(lines, io, mo)
+    return _finish('session', lines, descr, io, mo, d, dt,
+                   'histories of 2..10 parse / eval / list_names(partial) / host-mutation calls on one SqParser, 1..3 names mappings, texts '
+                   'from a pool of valid, lexically / syntactically invalid (unbalanced, premature end), failing and ops-limited sources; '
+                   'every call compared (result / error class+message / names-after / ops); the model answers each call from a '
+                   'fresh-parser table', list(range(len(lines))))
+
+
+def slice_session_cache(ctx):
+    """G-hist x cache kinds (C17): a disagreement counts only if the same history WITHOUT cache agrees
+    (otherwise it is C11's business)"""
+    lines, descr = _sessions(ctx, 'histc', 16000 if big(ctx) else 1200, ['dict', 'lru2', 'evict'])
+    io, mo, _, dt = corr.compare(lines)
+    d0 = _session_cmp(lines, io, mo)
+    d = []
+    if d0:
+        import re
+        plain = [re.sub(r'\(cache \w+\)', '(cache none)', lines[i]) for i in d0]
+        io2, mo2, _, _ = corr.compare(plain)
+        bad2 = set(_session_cmp(plain, io2, mo2))
+        d = [i for j, i in enumerate(d0) if j not in bad2]
+    return _finish('session_cache', lines, descr, io, mo, d, dt,
+                   'the same kind of histories with parse_cache in {dict, LRU(2), always-evicting}, repeated and near-duplicate sources '
+                   '(differing in trailing blanks / newlines), failing sources', list(range(len(lines))))
